@@ -192,8 +192,11 @@ def _nat_args(k: str) -> str:
 
 
 # ---------------------------------------------------------------------------------------------------- oracle
-def serial_oracle(case: Dict[str, Any], res: P.CaseResult) -> Optional[str]:
-    """Final table == serial replay, in flip order, of exactly the commits that reported success."""
+def serial_oracle(case: Dict[str, Any], res: P.CaseResult, flips: Optional[List[str]] = None) -> Optional[str]:
+    """Final table == serial replay, in flip order, of exactly the commits that reported success.
+    `flips` (optional): the committers whose pointer write the STORE applied, in order, established by the caller (runs with
+    lost responses / requests landing late, where a commit may be in the table without having been acknowledged); the caller
+    then judges acknowledgement itself and this function only replays."""
     if res.deadlock:
         return f"deadlock: {res.deadlock}"
     if "error" in res.final:
@@ -201,11 +204,13 @@ def serial_oracle(case: Dict[str, Any], res: P.CaseResult) -> Optional[str]:
     ops = _fix_case(case)["ops"]
     init = res.initial
     # flip order as observed: successful pointer writes during actor runs
-    flips = [e["actor"] for e in res.log if e["op"] in ("write_file", "write_file_cas") and P.path_class(e["path"]) == "hint" and e["result"] == "ok"
-             and e["actor"].startswith("A")]
+    given = flips is not None
+    if flips is None:
+        flips = [e["actor"] for e in res.log if e["op"] in ("write_file", "write_file_cas") and P.path_class(e["path"]) == "hint" and e["result"] == "ok"
+                 and e["actor"].startswith("A")]
     acked = [a for a, (st, _d) in res.outcomes.items() if st == "ok" and a.startswith("A")]
     noop = [a for a, (st, d) in res.outcomes.items() if st == "ok" and d == "noop" and a.startswith("A")]
-    if sorted(flips) != sorted(a for a in acked if a not in noop):
+    if not given and sorted(flips) != sorted(a for a in acked if a not in noop):
         return f"acknowledged commits {sorted(acked)} != pointer flips {flips} (a success without a flip, a flip without success, or a double flip)"
     # reference replay over (snapshot list, current, rows per snapshot)
     snaps = [(sid, set(init["snapshots"][sid]["files"]), init["snapshots"][sid]["ts"]) for sid in init["snapshot_order"]]
@@ -256,7 +261,7 @@ def serial_oracle(case: Dict[str, Any], res: P.CaseResult) -> Optional[str]:
         if not a.startswith("A"):
             continue
         op = ops[int(a[1:])]
-        if st != "ok" and op["kind"] == "append" and any(r["x"] in got_rows for r in op["rows"]):
+        if st != "ok" and a not in flips and op["kind"] == "append" and any(r["x"] in got_rows for r in op["rows"]):
             return f"commit of {a} raised but its rows are in the table"
     seqs = [res.final["snapshots"][sid]["seq"] for sid in res.final["log_order"] if sid in res.final["snapshots"]]
     if any(b <= a for a, b in zip(seqs, seqs[1:])):
